@@ -36,6 +36,7 @@ func cmdRerun(args []string) {
 		P     int    `json:"p"`
 		Seq   string `json:"seq"`
 		Stops []int  `json:"stops"`
+		Nest  []int  `json:"nest"`
 	}
 	type line struct {
 		Items []item            `json:"items"`
@@ -55,6 +56,7 @@ func cmdRerun(args []string) {
 		P     int    `json:"p"`
 		Seq   string `json:"seq"`
 		Stops []int  `json:"stops"`
+		Nest  []int  `json:"nest"`
 		Hasd  bool   `json:"hasd"`
 	}
 	st := Stats{Cmd: "rerun"}
@@ -112,12 +114,22 @@ func cmdRerun(args []string) {
 			case "Dump":
 				rec.DumpLine()
 			case "Iter":
-				stops := make([]int, len(it.Stops))
-				for i, s := range it.Stops {
-					if s >= 1<<20 {
-						stops[i] = -1
-					} else {
-						stops[i] = s
+				var stops []int
+				for i := 0; i < len(it.Stops); i++ {
+					isNest := false
+					for _, n := range it.Nest {
+						if n == i {
+							isNest = true
+						}
+					}
+					switch {
+					case isNest:
+						stops = append(stops, -2)
+						i++ // the inner pass was logged as a pass of its own
+					case it.Stops[i] >= 1<<20:
+						stops = append(stops, -1)
+					default:
+						stops = append(stops, it.Stops[i])
 					}
 				}
 				a := it.A
@@ -157,7 +169,7 @@ func cmdRerun(args []string) {
 		case "GC":
 			envGC(tr)
 		default:
-			read(item{Op: e.Op, K: e.K, A: e.A, B: e.B, N: e.N, NX: e.NX, P: e.P, Seq: e.Seq, Stops: e.Stops})
+			read(item{Op: e.Op, K: e.K, A: e.A, B: e.B, N: e.N, NX: e.NX, P: e.P, Seq: e.Seq, Stops: e.Stops, Nest: e.Nest})
 		}
 	}
 	tr.Close()
